@@ -218,6 +218,11 @@ def judge(plan, jr, prop="C16"):
                 if big and mv["i"] != tw["i"]:
                     return [_v(prop, "H.motion.flag", k, "intersection flag changes under a common rigid motion")]
         elif op["op"] == "surface":
+            if "live_tree" in o and o["live_tree"] != o["live_brute"]:
+                b, t = {tuple(x) for x in o["live_brute"]}, {tuple(x) for x in o["live_tree"]}
+                return [_v(prop, "H.surface.tree.live", k, "on the live (re-expressed) bodies the tree-based broad phase "
+                           "reports %d intersecting tetrahedron pairs, brute force %d (only brute: %s, only tree: %s)"
+                           % (len(t), len(b), sorted(b - t)[:4], sorted(t - b)[:4]))]
             if o["brute"] != o["tree"]:
                 b, t = {tuple(x) for x in o["brute"]}, {tuple(x) for x in o["tree"]}
                 return [_v(prop, "H.surface.tree", k, "tree-based broad phase reports %d intersecting tetrahedron pairs, "
